@@ -43,7 +43,7 @@ BUDGET = {
   # quick: a fixed amount of work (so that the evidence of two runs on machines of different speed agrees): 28 native processes of
   # 2000 program runs each, 7 at a time; the seconds are only an upper limit (this VM's thread wake-up latency varies by 20x over time)
   'quick':    dict(native_s=150, native_procs=7, proc_ms=45000, native_total=28, native_runs=2000, miri_s=45, miri_procs=6,
-                   asan_s=100, asan_procs=2, asan_total=4, asan_runs=1200),
+                   asan_s=100, asan_procs=2, asan_total=4, asan_runs=1200, tsan_s=100, tsan_procs=2, tsan_total=4, tsan_runs=500),
   'thorough': dict(native_s=480, native_procs=8, proc_ms=20000, miri_s=480, miri_procs=5, asan_s=200, asan_procs=2, tsan_s=200, tsan_procs=2, memcheck_s=200, memcheck_procs=2),
 }
 # program runs per native process in the quick tier where a run is slow (hold phases decided by the quiescence oracle, thread deaths)
@@ -79,6 +79,7 @@ def setup():
     ok = sanit.build_miri() and ok
     ok = (sanit.build_asan(True) is not None) and ok
     ok = (sanit.build_asan(False) is not None) and ok
+    ok = (sanit.build_tsan() is not None) and ok
     return 0 if ok else 2
 
 
@@ -327,7 +328,7 @@ def run_check(prop, tier, seed):
         if prop == 'C14':
             bins['asan-nohooks'] = sanit.build_asan(False)
             if not bins['asan-nohooks']: return 2
-    use_tsan = want('tsan') and tier == 'thorough' and prop in TSAN_PROPS
+    use_tsan = want('tsan') and prop in TSAN_PROPS
     if use_tsan:
         bins['tsan'] = sanit.build_tsan()
         if not bins['tsan']: return 2
@@ -353,7 +354,7 @@ def run_check(prop, tier, seed):
             jobs.append(('asan-nohooks', lambda: run_native(bins['asan-nohooks'], prop, tier, seed, out_dir, b['asan_s'], b['asan_procs'], b['proc_ms'], families=['off'], env=aenv, tool='asan-nohooks', prefix='b', total=b.get('asan_total'), runs=b.get('asan_runs'))))
     if use_tsan:
         tenv = dict(os.environ, TSAN_OPTIONS='halt_on_error=0:exitcode=0:report_signal_unsafe=0')
-        jobs.append(('tsan', lambda: run_native(bins['tsan'], prop, tier, seed, out_dir, b['tsan_s'], b['tsan_procs'], b['proc_ms'], env=tenv, tool='tsan', prefix='t')))
+        jobs.append(('tsan', lambda: run_native(bins['tsan'], prop, tier, seed, out_dir, b['tsan_s'], b['tsan_procs'], b['proc_ms'], env=tenv, tool='tsan', prefix='t', total=b.get('tsan_total'), runs=b.get('tsan_runs'))))
     if use_memcheck:
         wrap = ['valgrind', '-q', '--error-exitcode=0', '--fair-sched=yes', '--num-callers=30']
         jobs.append(('memcheck', lambda: run_native(bins['native'], prop, tier, seed, out_dir, b['memcheck_s'], b['memcheck_procs'], 15000, families=['none', 'uniform'], tool='memcheck', prefix='v', wrapper=wrap, extra=['--watchdog-s', '600'])))
